@@ -1502,6 +1502,9 @@ def _native_xml_case(col, work, label, feat, structure, doc, accepted, plain, co
             continue
         produced, fpath = w[1]
         natives, body = native_inputs(produced, fpath)
+        if not full and len(natives) > 2:
+            # the output as it is handed out, and one of the forms a caller can pass it on in (moving)
+            natives = [natives[0], natives[1 + (index + n_w) % (len(natives) - 1)]]
         for n_i, (input_label, data) in enumerate(natives):
             for rname in _rotating_readers(readers_for(input_label, styled), index + n_w + n_i, full):
                 cases.path = fpath if data is None else path2
@@ -1566,8 +1569,10 @@ def run_native_roundtrip(tier, seed):
              % (n_objects, len(c2.VALUE_ENTRY_POINTS),
                 '' if tier == 'quick' else ', one per ordered pair of objects of a dtype in one list',
                 '' if tier == 'quick' else '; for the per-object documents also a moving window of re-encoded forms',
-                'one strict and one lenient per input, moving with the case number' if tier == 'quick' else
-                'all of them for the per-object documents, one strict and one lenient per input for the others'),
+                'the output as handed out + one moving further form per writer, one strict and one lenient reader per '
+                'input, moving with the case number' if tier == 'quick' else
+                'all forms and readers for the per-object documents; for the others the output as handed out + one '
+                'moving further form, one strict and one lenient reader per input'),
         exhaustive=False)
     agg = Agg(col)
     work = fresh_workdir('c01_native')
